@@ -168,15 +168,55 @@ package kvql
 //
 // Not yet verified (thin assumed contracts: frame and ownership only).
 //@ func (e *BinaryOpExpr) execRegexpMatchBatch(chunk []KVPair, ctx *ExecuteCtx) (ret []any, err error)
-//@   trusted thin contract (frame only), body not yet verified
+//@   props C03
 //@   requires wfBin(e)
 //@   assigns ctx.Hit, mapof(ctx.FieldCaches), mapof(ctx.FieldChunkKeyCaches), mapof(ctx.FieldChunkCaches)
+//@   ensures[C03] same: err == nil ==> len(ret) == len(chunk) && (forall i Int :: 0 <= i && i < len(chunk) ==> lokI(e, chunk, i) && rokI(e, chunk, i) && isText(lvI(e, chunk, i)) && isText(rvI(e, chunk, i)) && reOk(textOf(rvI(e, chunk, i))) && ret[i] == ABool(reMatch(textOf(rvI(e, chunk, i)), textOf(lvI(e, chunk, i)))))
 //@   ensures own: err == nil ==> isnil(ret) || fresh(ret)
+//@   loop 0
+//@     invariant 0 <= i && i <= len(chunk) && len(rleft) == len(chunk) && len(rright) == len(chunk) && (isnil(rleft) || fresh(rleft)) && (isnil(rright) || fresh(rright)) && (len(chunk) > 0 ==> ptr(rleft) != ptr(rright)) && bothOk(e, chunk) && fresh(regexpCache)
+//@     invariant cache: forall q B :: has(regexpCache, q) ==> regexpCache[q] != nil && repat(regexpCache[q]) == q && reOk(q)
+//@     invariant forall j Int :: 0 <= j && j < len(chunk) ==> rright[j] == rvI(e, chunk, j)
+//@     invariant forall j Int :: i <= j && j < len(chunk) ==> rleft[j] == lvI(e, chunk, j)
+//@     invariant forall j Int :: 0 <= j && j < i ==> isText(lvI(e, chunk, j)) && isText(rvI(e, chunk, j)) && reOk(textOf(rvI(e, chunk, j))) && rleft[j] == ABool(reMatch(textOf(rvI(e, chunk, j)), textOf(lvI(e, chunk, j))))
+// x IN (a, b, ...) in batch mode (literal list, texts): row i is `some element equals x` on pair i,
+// the row form's meaning (inTextN). The number form and the function-valued list: frame, shape and
+// panic freedom only.
+//@ define inTextNC(e *BinaryOpExpr, chunk []KVPair, i Int, n Int) Bool = exists j Int :: 0 <= j && j < n && textOf(evalv(as(e.Right, *ListExpr).List[j], ck(chunk, i), cv(chunk, i))) == textOf(lvI(e, chunk, i))
 //@ func (e *BinaryOpExpr) execInBatch(chunk []KVPair, number bool, ctx *ExecuteCtx) (ret []any, err error)
-//@   trusted thin contract (frame only), body not yet verified
-//@   requires wfBin(e)
+//@   props C03
+//@   requires wfBetween(e)
 //@   assigns ctx.Hit, mapof(ctx.FieldCaches), mapof(ctx.FieldChunkKeyCaches), mapof(ctx.FieldChunkCaches)
 //@   ensures own: err == nil ==> isnil(ret) || fresh(ret)
+//@   ensures[C03] shape: err == nil ==> len(ret) == len(chunk) && (forall i Int :: 0 <= i && i < len(chunk) ==> lokI(e, chunk, i))
+//@   ensures[C03] member: err == nil && is(e.Right, *ListExpr) && !number ==> (forall i Int :: 0 <= i && i < len(chunk) ==> ret[i] == ABool(inTextNC(e, chunk, i, nitems(e))))
+//@   loop 0 (expr)
+//@     invariant len(rleft) == len(chunk) && (isnil(rleft) || fresh(rleft)) && len(listValues) == nitems(e) && fresh(listValues) && rlist == e.Right && is(e.Right, *ListExpr)
+//@     invariant forall q Int :: 0 <= q && q < len(chunk) ==> lokI(e, chunk, q) && rleft[q] == lvI(e, chunk, q)
+//@     invariant forall l2 Int :: 0 <= l2 && l2 <= rangeindex ==> rowsOf(as(e.Right, *ListExpr).List[l2], chunk, listValues[l2]) && (isnil(listValues[l2]) || fresh(listValues[l2])) && (len(chunk) > 0 ==> ptr(listValues[l2]) != ptr(rleft))
+//@     use rangeindex + 1
+//@   loop 1
+//@     invariant 0 <= i && i <= len(chunk) && len(rleft) == len(chunk) && (isnil(rleft) || fresh(rleft)) && len(listValues) == nitems(e) && fresh(listValues) && is(e.Right, *ListExpr)
+//@     invariant forall q Int :: 0 <= q && q < len(chunk) ==> lokI(e, chunk, q)
+//@     invariant forall q Int :: i <= q && q < len(chunk) ==> rleft[q] == lvI(e, chunk, q)
+//@     invariant forall l2 Int :: 0 <= l2 && l2 < nitems(e) ==> rowsOf(as(e.Right, *ListExpr).List[l2], chunk, listValues[l2]) && (len(chunk) > 0 ==> ptr(listValues[l2]) != ptr(rleft))
+//@     invariant[C03] done: !number ==> (forall q Int :: 0 <= q && q < i ==> rleft[q] == ABool(inTextNC(e, chunk, q, nitems(e))))
+//@   loop 2
+//@     invariant 0 <= i && i < len(chunk) && 0 <= j && j <= len(listValues) && len(rleft) == len(chunk) && (isnil(rleft) || fresh(rleft)) && len(listValues) == nitems(e) && fresh(listValues) && is(e.Right, *ListExpr) && !cmpRet && left == lvI(e, chunk, i)
+//@     invariant forall q Int :: 0 <= q && q < len(chunk) ==> lokI(e, chunk, q)
+//@     invariant forall q Int :: i <= q && q < len(chunk) ==> rleft[q] == lvI(e, chunk, q)
+//@     invariant forall l2 Int :: 0 <= l2 && l2 < nitems(e) ==> rowsOf(as(e.Right, *ListExpr).List[l2], chunk, listValues[l2]) && (len(chunk) > 0 ==> ptr(listValues[l2]) != ptr(rleft))
+//@     invariant[C03] done: !number ==> (forall q Int :: 0 <= q && q < i ==> rleft[q] == ABool(inTextNC(e, chunk, q, nitems(e))))
+//@     invariant[C03] sofar: !number ==> !inTextNC(e, chunk, i, j)
+//@     use j
+//@     use i
+//@   loop 3
+//@     invariant 0 <= local(i#2) && local(i#2) <= len(chunk) && len(rleft) == len(chunk) && (isnil(rleft) || fresh(rleft)) && len(frets) == len(chunk) && !is(e.Right, *ListExpr)
+//@     invariant forall q Int :: 0 <= q && q < len(chunk) ==> lokI(e, chunk, q)
+//@   loop 4
+//@     invariant 0 <= local(i#2) && local(i#2) < len(chunk) && 0 <= local(j#2) && local(j#2) <= len(values) && len(rleft) == len(chunk) && (isnil(rleft) || fresh(rleft)) && len(frets) == len(chunk) && !is(e.Right, *ListExpr) && (isnil(values) || fresh(values))
+//@     invariant forall q Int :: 0 <= q && q < len(chunk) ==> lokI(e, chunk, q)
+//
 // BETWEEN in batch mode: row i is what the row form gives on pair i (text bounds byte-wise, integer
 // bounds numerically; bounds in the wrong order stop the batch like they stop the row form).
 //@ func (e *BinaryOpExpr) execBetweenBatch(chunk []KVPair, number bool, ctx *ExecuteCtx) (ret []any, err error)
@@ -196,14 +236,20 @@ package kvql
 //@     invariant number ==> (forall j Int :: 0 <= j && j < i ==> isNum(lvI(e, chunk, j)) && isNum(evalv(blo(e), ck(chunk, j), cv(chunk, j))) && isNum(evalv(bhi(e), ck(chunk, j), cv(chunk, j))) && (isInt(lvI(e, chunk, j)) && isInt(evalv(blo(e), ck(chunk, j), cv(chunk, j))) && isInt(evalv(bhi(e), ck(chunk, j), cv(chunk, j))) ==> intof(evalv(blo(e), ck(chunk, j), cv(chunk, j))) <= intof(evalv(bhi(e), ck(chunk, j), cv(chunk, j))) && rleft[j] == ABool(intof(evalv(blo(e), ck(chunk, j), cv(chunk, j))) <= intof(lvI(e, chunk, j)) && intof(lvI(e, chunk, j)) <= intof(evalv(bhi(e), ck(chunk, j), cv(chunk, j))))))
 //
 //@ func (e *BinaryOpExpr) execStringConcateBatch(chunk []KVPair, ctx *ExecuteCtx) (ret []any, err error)
-//@   trusted thin contract (frame only), body not yet verified
+//@   props C03
 //@   requires wfBin(e)
 //@   assigns ctx.Hit, mapof(ctx.FieldCaches), mapof(ctx.FieldChunkKeyCaches), mapof(ctx.FieldChunkCaches)
+//@   ensures[C03] same: err == nil ==> len(ret) == len(chunk) && (forall i Int :: 0 <= i && i < len(chunk) ==> lokI(e, chunk, i) && rokI(e, chunk, i) && isText(lvI(e, chunk, i)) && isText(rvI(e, chunk, i)) && isText(ret[i]) && textOf(ret[i]) == cat(textOf(lvI(e, chunk, i)), textOf(rvI(e, chunk, i))))
 //@   ensures own: err == nil ==> isnil(ret) || fresh(ret)
+//@   loop 0
+//@     invariant 0 <= i && i <= len(chunk) && len(left) == len(chunk) && len(right) == len(chunk) && (isnil(left) || fresh(left)) && (isnil(right) || fresh(right)) && (len(chunk) > 0 ==> ptr(left) != ptr(right)) && bothOk(e, chunk)
+//@     invariant forall j Int :: 0 <= j && j < len(chunk) ==> right[j] == rvI(e, chunk, j)
+//@     invariant forall j Int :: i <= j && j < len(chunk) ==> left[j] == lvI(e, chunk, j)
+//@     invariant forall j Int :: 0 <= j && j < i ==> isText(lvI(e, chunk, j)) && isText(rvI(e, chunk, j)) && isText(left[j]) && textOf(left[j]) == cat(textOf(lvI(e, chunk, j)), textOf(rvI(e, chunk, j)))
 //
 // The vector form of a binary node agrees with the documented meaning (doc_bin) row by row, for
 // the operators whose helpers are proved above.
-//@ define provedOp(e *BinaryOpExpr) Bool = e.Op == Eq || e.Op == NotEq || e.Op == PrefixMatch || e.Op == And || e.Op == KWAnd || e.Op == Or || e.Op == KWOr || isOrderOp(e.Op) || e.Op == Sub || e.Op == Mul || e.Op == Div || (e.Op == Add && rtype(e.Left) != TSTR) || (e.Op == Between && rtype(e.Left) == TSTR)
+//@ define provedOp(e *BinaryOpExpr) Bool = e.Op == Eq || e.Op == NotEq || e.Op == PrefixMatch || e.Op == And || e.Op == KWAnd || e.Op == Or || e.Op == KWOr || isOrderOp(e.Op) || e.Op == Sub || e.Op == Mul || e.Op == Div || (e.Op == Add && rtype(e.Left) != TSTR) || (e.Op == Between && rtype(e.Left) == TSTR) || e.Op == RegExpMatch
 //@ func (e *BinaryOpExpr) ExecuteBatch(chunk []KVPair, ctx *ExecuteCtx) (ret []any, err error) implements Expression.ExecuteBatch
 //@   props C03
 //@   ifaceassumed same
